@@ -343,6 +343,21 @@ func inputRun() error {
 			emit(ev{"ev": "Focus", "enabled": on, "focused": b, "evs": drain(s)})
 		}
 	}
+	// after a Suspend/Resume cycle every kind of callback is an event again (modes still enabled)
+	s.EnableMouse(tcell.MouseFlags(7))
+	for cycle := 0; cycle < 2; cycle++ {
+		s.Suspend()
+		s.Resume()
+		drain(s)
+		g.Call("onKeyEvent", "a", false, false, false, false)
+		emit(ev{"ev": "Key", "name": "a", "runes": []int{'a'}, "shift": false, "alt": false, "ctrl": false, "meta": false, "evs": drain(s)})
+		g.Call("onMouseClick", 2, 1, 1, false, false, false)
+		emit(ev{"ev": "Mouse", "flags": 7, "cb": "onMouseClick", "x": 2, "y": 1, "which": 1, "shift": false, "alt": false, "ctrl": false, "evs": drain(s)})
+		g.Call("onPaste", true)
+		emit(ev{"ev": "Paste", "enabled": true, "start": true, "evs": drain(s)})
+		g.Call("onFocus", true)
+		emit(ev{"ev": "Focus", "enabled": true, "focused": true, "evs": drain(s)})
+	}
 	s.Fini()
 	return nil
 }
